@@ -75,6 +75,7 @@ type Item struct {
 
 // Fx is the verification context of one top-level function.
 type Fx struct {
+	rootAlloc string // allocation counter at the entry of the verified function
 	E        *Engine
 	top      *ssa.Function
 	topKey   string
